@@ -237,3 +237,56 @@ Proof.
       { apply map_ext. intro o. unfold ser_out, S_txout. cbn [app]. rewrite app_nil_r. reflexivity. }
       rewrite EO. reflexivity.
 Qed.
+
+(* ANYONECANPAY: the signing input alone, own sequence kept (also under NONE / SINGLE) *)
+Definition legacy_acp_domain (t : tx) (idx : nat) (ht : N) : Prop :=
+  ht_acp ht = true /\ ht_rp ht = false /\ (ht_single ht = true -> ht_none ht = false -> idx = 0%nat) /\
+  Forall (fun i => in_index i <= OutpointIndexMask) (t_ins t).
+
+Lemma nth_map_idx_own (idx : nat) : forall (ins : list txin) (k n : nat), idx = (k + n)%nat ->
+  nth_error (map_idx (fun k i => if (k =? idx)%nat then i else set_seq 0 i) k ins) n = 
+  match nth_error ins n with Some x => Some x | None => None end.
+Proof.
+  induction ins as [|a r IH]; intros k n E.
+  - destruct n; reflexivity.
+  - destruct n as [|n]; cbn [map_idx nth_error].
+    + replace (k =? idx)%nat with true by (symmetry; apply Nat.eqb_eq; lia). reflexivity.
+    + apply IH. lia.
+Qed.
+
+Lemma own_ser_spec script own : in_index own <= OutpointIndexMask ->
+  ser_in (set_script script own) =
+  S_outpoint_flags own ++ var_slice script ++ u32 (in_seq own) ++ match in_iss own with Some s => S_issuance s | None => [] end.
+Proof. intro F. exact (ser_in_spec script own true 0 F). Qed.
+
+Theorem legacy_acp_refines_spec t idx script ht :
+  legacy_acp_domain t idx ht ->
+  preimage_legacy t idx script ht = spec_legacy_acp_preimage t idx script ht.
+Proof.
+  intros (ACP & RP & SNG & F).
+  unfold preimage_legacy, legacy_tx, spec_legacy_acp_preimage. rewrite ACP, RP. unfold ht_none, ht_single in *. rewrite base_eq in *.
+  destruct (nth_error (t_ins t) idx) as [own|] eqn:EN; [|reflexivity].
+  assert (Fo : in_index own <= OutpointIndexMask).
+  { rewrite Forall_forall in F. apply F. eapply nth_error_In; exact EN. }
+  assert (NZ : nth_error (zero_other_seqs idx (t_ins t)) idx = Some own).
+  { unfold zero_other_seqs. rewrite (nth_map_idx_own idx (t_ins t) 0 idx eq_refl), EN. reflexivity. }
+  destruct (base_type ht =? 2) eqn:B2.
+  - assert (X : (base_type ht =? 3) = false) by (apply N.eqb_eq in B2; rewrite B2; reflexivity).
+    rewrite X, NZ. cbn [andb orb]. f_equal. unfold ser_tx, layout, S_all, enc_list. cbn [andb negb t_version t_ins t_outs t_locktime concat map lenL length].
+    rewrite (own_ser_spec script own Fo). cbn [app]. rewrite <- !app_assoc, ?app_nil_r. unfold u32.
+    rewrite le4_low. reflexivity.
+  - destruct (base_type ht =? 3) eqn:B3.
+    + specialize (SNG eq_refl eq_refl). subst idx. cbn [andb orb].
+      destruct (Nat.leb_spec (length (t_outs t)) 0) as [L0|G0]; [reflexivity|].
+      rewrite NZ. f_equal. unfold ser_tx, layout, S_all, enc_list. cbn [andb negb t_version t_ins t_outs t_locktime concat firstn skipn map app lenL length].
+      rewrite (own_ser_spec script own Fo). rewrite <- !app_assoc, ?app_nil_r. unfold u32.
+      destruct (t_outs t) as [|o outs]; [cbn in G0; lia|]. cbn [firstn map concat length].
+      rewrite le4_low. unfold ser_out, S_txout. cbn [app]. rewrite <- ?app_assoc, ?app_nil_r. reflexivity.
+    + cbn [andb orb]. rewrite EN. f_equal. unfold ser_tx, layout, S_all, enc_list. cbn [andb negb t_version t_ins t_outs t_locktime concat map lenL length].
+      rewrite (own_ser_spec script own Fo). cbn [app]. rewrite <- !app_assoc, ?app_nil_r. unfold u32.
+      rewrite le4_low.
+      assert (EO : map (ser_out false false) (t_outs t) = map S_txout (t_outs t)).
+      { apply map_ext. intro o. unfold ser_out, S_txout. cbn [app]. rewrite app_nil_r. reflexivity. }
+      rewrite EO. reflexivity.
+Qed.
+
